@@ -79,4 +79,60 @@ func probes() {
 		}
 		fmt.Printf("add/shutdown race: %d/%d accepted elements left in the heap after Shutdown returned\n", stuck, trials)
 	}
+	fmt.Println(shutdownHangProbe(200))
+	d, h := lateCancel(400)
+	fmt.Printf("D18c late cancel (hook): cancelled-before-select element delivered in %d/400 trials (hung %d)\n", d, h)
+}
+
+// lateCancel (D18c): the poller is held between pop and select (yield hook); Cancel() runs to completion on the
+// popped element whose time is already due; then the poller continues. Returns how often the cancelled element was
+// delivered although Cancel had returned before the select was even entered.
+func lateCancel(trials int) (int, int) {
+	delivered, hung := 0, 0
+	for i := 0; i < trials; i++ {
+		q := timed.NewQueue[int]()
+		popped, goOn := make(chan struct{}), make(chan struct{})
+		hookHandlers.Store(any(q), func(any) { close(popped); <-goOn })
+		res := make(chan int, 1)
+		e := q.Add(7, time.Now().Add(-time.Millisecond))
+		go func() { res <- q.Poll(false) }()
+		if !waitFor(popped, 2*time.Second) {
+			hung++
+			continue
+		}
+		hookHandlers.Delete(any(q))
+		e.Cancel()
+		close(goOn)
+		select {
+		case v := <-res:
+			if v == 7 {
+				delivered++
+			}
+		case <-time.After(2 * time.Second):
+			hung++
+		}
+	}
+	return delivered, hung
+}
+
+// shutdownHangProbe (D18d): two idle workers wait on the condition variable; ExecuteAt wakes one of them with Signal;
+// Shutdown finds the heap non-empty (the woken worker has not popped yet) and does not Broadcast: the other worker
+// sleeps forever and Executor.Shutdown never returns.
+func shutdownHangProbe(trials int) string {
+	hangs := 0
+	for i := 0; i < trials; i++ {
+		ex := timed.NewExecutor(2)
+		time.Sleep(2 * time.Millisecond) // let both workers reach waitCond.Wait()
+		ex.ExecuteAt(func() {}, time.Now().Add(10*time.Millisecond))
+		if !guardFor(func() { ex.Shutdown() }, time.Second) {
+			hangs++
+		}
+	}
+	return fmt.Sprintf("D18d ExecuteAt; Shutdown() with 2 idle workers: Shutdown hung in %d/%d trials", hangs, trials)
+}
+
+func guardFor(f func(), d time.Duration) bool {
+	done := make(chan struct{})
+	go func() { f(); close(done) }()
+	return waitFor(done, d)
 }
